@@ -163,13 +163,15 @@ PROPS = {
                 "through the control connection, transfer through the production transfer loop; oracle = reference client: reply field 207 == "
                 "size-k, field 108 == header+size-k (no stored resource fork) or == size (preview), stream = strictly parsed FILP/INFO/DATA "
                 "header + exactly content[k:] + (resource fork | nothing | empty MACR header); non-trivial = size>0 and (k>0 or a fork is "
-                "stored or size>32 KiB); distinct = hash(name, content, mode, k, forks); in 3 of 5 cases the client's bytes on the transfer connection are cut into segments (random cuts, cuts inside the fixed-size headers, byte by byte); a quarter of the plain files are asked for through an alias (sizes and bytes are the target's); comments of the stored info fork up to 65535 bytes; TestC08Slow (child process, production listeners over loopback): the client reads 1 MiB of a 24 MiB file, pauses 33 s of real time, reads the rest and must hold exactly the file (one case per run)",
+                "stored or size>32 KiB); distinct = hash(name, content, mode, k, forks); in 3 of 5 cases the client's bytes on the transfer connection are cut into segments (random cuts, cuts inside the fixed-size headers, byte by byte); a quarter of the plain files are asked for through an alias (sizes and bytes are the target's); comments of the stored info fork up to 65535 bytes; TestC08Slow (child process, production listeners over loopback): the client reads 1 MiB of a 24 MiB file, pauses 33 s of real time, reads the rest and must hold exactly the file (one case per run); TestC08ManyGrants: a download is granted, 300 .. 131073 further transfers are granted to the same user, then a second download: both transfer connections must carry the file that was granted to them; files 254-300 folders deep with decoys of the same name nearer the root",
         "assumptions": ["the empty 16-byte MACR trailer mobius appends when no resource fork is stored is tolerated (DESIGN C08 interpretation note)",
                         "the encoding of the name inside the flattened-file header is not asserted (not part of the statement)"],
         "needs_cmds": True,
         "quick": {"runs": [{"test": "^TestC08Slow$", "shards": 1, "timeout": 900},
+                           {"test": "^TestC08ManyGrants$", "shards": 1, "checks": 12, "timeout": 600},
                            {"test": "^TestC08$", "shards": 15, "checks": 430, "timeout": 600}]},
         "thorough": {"runs": [{"test": "^TestC08Slow$", "shards": 1, "timeout": 900},
+                              {"test": "^TestC08ManyGrants$", "shards": 1, "checks": 300, "timeout": 3400},
                               {"test": "^TestC08$", "shards": 15, "checks": 6400, "timeout": 3400}]},
     },
     "C09": {
